@@ -5,7 +5,7 @@
    Json/Data.v (Spec and Impl data). *)
 From Verif Require Import Json.Model Json.Cue Json.Data Json.Utf8Proofs Json.StringProofs Json.NumProofs
   Json.RoundTrip Json.CueStrProofs Json.CueNumProofs Json.FormatProofs Json.DataProofs Json.Reject
-  Json.Refine Json.Examples.
+  Json.Refine Json.WfProofs Json.Examples.
 
 (* ------------------------------------------------------------ round trip ---- *)
 (* ALL well-formed values: any nesting, repeated and empty member names, every string of
@@ -109,6 +109,22 @@ Print Assumptions C10_cue_data_spec_when.
 Theorem C10_cue_parse_refines_std : forall s v, json_parse_gen Cue s = Some v -> json_parse s = Some v.
 Proof. exact cue_parse_refines_std. Qed.
 Print Assumptions C10_cue_parse_refines_std.
+
+(* readers only produce well-formed values: print . parse is a normal form *)
+Theorem C10_parse_wf : forall m s v, json_parse_gen m s = Some v -> wf_value v = true.
+Proof. exact parse_wf. Qed.
+Print Assumptions C10_parse_wf.
+
+Theorem C10_parse_print_parse : forall s v, json_parse s = Some v -> json_parse (json_print v) = Some v.
+Proof. exact parse_print_parse. Qed.
+Print Assumptions C10_parse_print_parse.
+
+(* document level: Impl = Spec under the exact side condition *)
+Theorem C10_cue_decode_is_spec_when : forall s v, json_parse_gen Cue s = Some v ->
+  dup_keys v = false -> nums_in_range v = true ->
+  cue_decode s = spec_decode s /\ spec_decode s = Some (spec_data v).
+Proof. exact cue_decode_is_spec_when. Qed.
+Print Assumptions C10_cue_decode_is_spec_when.
 
 (* F12, F10 *)
 Theorem C10_dup_keys_refuted :
